@@ -1,5 +1,6 @@
 import Abverif.Model.Pmce
 import Abverif.Proofs.Lemmas.PmceData
+import Abverif.Proofs.Lemmas.PmceRtSmall
 import Abverif.Proofs.Lemmas.PmceRtOffer0
 import Abverif.Proofs.Lemmas.PmceRtResp0
 import Abverif.Proofs.Lemmas.PmceRtOffer1
@@ -606,6 +607,26 @@ theorem lossless_with_send_limit_fails :
     ∧ (rxAll (Rx.init toy ⟨false, false, false, 15, 15, 8⟩)
         (s.2.1.map fun f => ⟨f.fin, f.rsv, f.opcode, [f.payload]⟩)).map (·.2)
         = some [(true, [1, 2, 3]), (true, [10])] := by
+  decide +kernel
+
+/-- **lossless with a send limit, provable part**: with `maxMessagePayloadSize = maxPayload` (any value) and a
+deflater that resets for every message (no context takeover in this direction), exactly the messages whose send was
+not refused are delivered, intact and in order — a refused send cannot hurt because the next message starts from a
+fresh deflater. With context takeover this is false: `lossless_with_send_limit_fails` (F17). -/
+theorem lossless_with_send_limit_partial {K : Codec} (L : K.Lawful) (a b : Pmce) (hc : dirCompatible a b)
+    (he : a.encNct = true) (maxPayload : Nat) (msgs : List Msg) (hwf : ∀ m ∈ msgs, m.wf) (wire : List WireFrame)
+    (hw : wire.map WireFrame.toFrame = (sendAll (Tx.init K a) maxPayload msgs).2.1) :
+    ∃ r', rxAll (Rx.init K b) wire = some (r', (sendAll (Tx.init K a) maxPayload msgs).2.2) :=
+  send_recv_all_limit L a b hc he maxPayload msgs _ _ rfl ⟨rfl, rfl, Or.inl rfl⟩ hwf wire hw
+
+/-- the hypotheses are satisfiable together with a refusal actually happening: toy codec, no context takeover,
+limit 10 — the 8-octet message is refused, the other two arrive intact -/
+example :
+    (rxAll (Rx.init toy ⟨false, true, false, 15, 15, 8⟩)
+      (((sendAll (Tx.init toy ⟨true, true, false, 15, 15, 8⟩) 10
+        [.whole true false none [1, 2, 3], .whole true false none [0, 0, 0, 0, 0, 0, 0, 0], .whole true false none [9]]).2.1).map
+          fun f => ⟨f.fin, f.rsv, f.opcode, [f.payload]⟩)).map (·.2)
+      = some [(true, [1, 2, 3]), (true, [9])] := by
   decide +kernel
 
 /-- **do-not-compress**: the message travels verbatim with RSV1 clear on every frame, and the deflater is not
